@@ -291,6 +291,24 @@ impl Check for C14 {
         let nfiles = k.weighted(&[50, 35, 15]) + 1;
         let files: Vec<Vec<TMsg>> = if nfiles == 1 || trace.len() < nfiles * 2 {
             vec![trace]
+        } else if k.chance(1, 4) && trace.iter().any(|m| m.ecu != trace[0].ecu) {
+            // nested ECU sets that overlap in time: one file with all ECUs and every other message of the
+            // first ECU, a second file with the remaining messages of that ECU
+            let e0 = trace[0].ecu;
+            let mut a = vec![];
+            let mut b = vec![];
+            let mut n0 = 0;
+            for m in trace {
+                if m.ecu == e0 {
+                    n0 += 1;
+                    if n0 % 2 == 0 {
+                        b.push(m);
+                        continue;
+                    }
+                }
+                a.push(m);
+            }
+            if k.bool() { vec![a, b] } else { vec![b, a] }
         } else if k.bool() {
             // same recorder stream cut into consecutive chunks
             let mut cuts: Vec<usize> = (0..nfiles - 1).map(|_| k.urange(1, trace.len() - 1)).collect();
